@@ -941,7 +941,7 @@ func (w *Worker) implements(v IfaceV, it *types.Interface) bool {
 	if types.Identical(v.T, nopType) {
 		return true
 	}
-	if op, ok := v.V.(*OpaqueV); ok && op.Kind == "iface" {
+	if _, ok := v.V.(*OpaqueV); ok && types.Identical(v.T, opqType) {
 		return true
 	}
 	return types.Implements(v.T, it)
